@@ -38,7 +38,11 @@ type hOpts struct {
 	Prefix      []seqx.Event // applied (silently) when a world is created: start from a non-initial state
 	Rollover    bool         // the provider may roll its signing key once
 	OnlyLive    bool         // present only cookies of sessions that exist in the store (plus none when nothing exists)
+	OddCookies  bool         // every cookie-bearing app/logout request also with the session cookie inside odd Cookie headers
 }
+
+// oddCookieForms: Cookie headers as browsers send them when other applications on the host set sloppy cookies.
+var oddCookieForms = []string{"{C};", "{C}; seen", `prefs={"theme":"dark","n":[1,2]}; {C}`, "; ; {C}", "a=b=c; {C}; d=\"q\""}
 
 type hSys struct {
 	W    *world.World
@@ -369,6 +373,10 @@ func (o hOpts) model(monitors ...hMonitor) seqx.Model {
 				if !g.Tokens.AccessTokenExpiresAt.IsZero() {
 					exps = append(exps, g.Tokens.AccessTokenExpiresAt.Add(5).Truncate(time.Second))
 				}
+				// ... and when the provider says the access token expires, whatever the service noted down
+				if ai := w.IdP.Issued[g.Tokens.AccessToken]; ai != nil && ai.Kind == "access" {
+					exps = append(exps, ai.Exp)
+				}
 			}
 			sort.Slice(exps, func(i, j int) bool { return exps[i].Before(exps[j]) })
 			for _, x := range exps {
@@ -384,6 +392,20 @@ func (o hOpts) model(monitors ...hMonitor) seqx.Model {
 		}
 		if o.Rollover && !w.Rolled {
 			out = append(out, seqx.Event{Kind: "rollover"})
+		}
+		if o.OddCookies {
+			n := len(base)
+			for i := 0; i < n; i++ {
+				r := base[i].Req
+				if r.Cookie == "" || r.Cookie == "!" || strings.HasPrefix(r.Path, "/callback") {
+					continue
+				}
+				for _, f := range oddCookieForms {
+					r2 := *r
+					r2.CookieForm = f
+					base = append(base, seqx.Event{Kind: "req", Req: &r2})
+				}
+			}
 		}
 		// two replicas: every request can be served by either
 		if o.Spec.Replicas == 2 {
